@@ -24,7 +24,6 @@ from .. import cshist as ch
 from ..core import ROOT, Check, HarnessError, ddmin, proof_stage
 
 PROP = "C20"
-PFX_HEX = ch.PREFIX.encode().hex()
 
 TRUSTED = [
     "Lean 4.33.0 kernel; axioms of every theorem audited to be within {propext, Classical.choice, Quot.sound}",
@@ -40,7 +39,7 @@ TRUSTED = [
 PARTIAL = (
     "Decided relative to models of redis-py and of the server (tracking included), neither validated against the real thing. Quiescent points "
     "only (delivery completed between commands): interleavings of a command with in-flight announcements are not explored. Not exhibited: "
-    "late expiry announcements of a real server, get_many with repeated keys, get on a key locked with a raw token, get_size, more than one SCAN page, the local copy's capacity, "
+    "late expiry announcements of a real server, get on a key locked with a raw token, get_size, more than one SCAN page, the local copy's capacity, "
     "server down (C19), more than 3 clients. get_expire's answer is compared with the model only (the code lets it differ from the server's). "
     "Outages: a connect attempt is refused or accepted as a whole (no failure between CLIENT TRACKING and SUBSCRIBE), one client in an outage at a "
     "time in the outage histories (the random histories drop several); the local copy is observed through reads only."
@@ -49,19 +48,15 @@ KNOWN_SIGS = {
     "D28": "D28:negative-int-not-read-back",
     "D26": "D26:rejected-conditional-write-readable",
     "D31": "D31:stale-after-reconnect-echo-mark",
+    "D63": "D63:get-many-default-equal-value-remembered-absent",
+    "D66": "D66:get-many-repeated-keys",
 }
 
 
 def norm_dump(d: str):
+    """(stub keyspace as the caller names the keys - the driver applies removePrefix -, model keyspace)"""
     i = d.index(" model=")
-    stub, model = d[len("stub="):i], d[i + len(" model="):]
-
-    def strip(x):
-        head, body = x.split("[", 1)
-        ents = [e[len(PFX_HEX):] if e.startswith(PFX_HEX) else "?" + e for e in body[:-1].split(" ") if e]
-        return head + "[" + " ".join(ents) + "]"
-
-    return strip(stub), model
+    return d[len("stub="):i], d[i + len(" model="):]
 
 
 def classify(steps, i) -> str | None:
@@ -69,11 +64,21 @@ def classify(steps, i) -> str | None:
     s = steps[i]
     op = s["op"]
     c = op[1]
-    keys = [op[2]] if op[0] in ("get", "exists") else list(op[2]) if op[0] == "getmany" else ch.KEYS
+    keys = [op[2]] if op[0] in ("get", "exists") else list(op[2]) if op[0] == "getmany" else ch.case_keys([t["op"] for t in steps])
     if op[0] in ("get", "getmany") and "=" in s["impl"] and "=" in (s["server"] or ""):
         a, b = s["impl"].split("=", 1)[1].split(","), s["server"].split("=", 1)[1].split(",")
         if len(a) == len(b) and all(x == y or (x == "-" and y.startswith("i:-")) for x, y in zip(a, b)):
             return KNOWN_SIGS["D28"]
+    for j in range(i, -1, -1):
+        # an earlier get_many(default=d) of this client that fetched a stored value equal to d and filed it as "known absent"
+        o = steps[j]["op"]
+        if o[0] == "getmany" and len(o) > 3 and o[1] == c and set(o[2]) & set(keys):
+            dtok = {"i0": "i:0", "none": "o:80054e2e"}.get(o[3])
+            held = (s["server"] or "=").split("=", 1)[1].split(",")        # what the server holds where the read went wrong
+            if dtok in held:
+                return KNOWN_SIGS["D63"]
+        if o[0] in ("clear", "drop", "reconnect") and (o[0] == "clear" or o[1] == c):
+            break
     for j in range(i - 1, -1, -1):
         o = steps[j]["op"]
         if o[0] in ("set", "setlock") and o[1] == c and o[2] in keys and steps[j]["impl"] == "F":
@@ -101,7 +106,9 @@ def judge(steps) -> list[dict]:
     for i, s in enumerate(steps):
         impl, model, want = s["impl"], s["model"], s["server"]
         if impl.startswith("?") or impl == "RAISEOTHER":
-            out.append({"i": i, "kind": "property", "sig": None, "what": f"`{s['line']}` -> {impl} {s['detail']}"})
+            dup = s["op"][0] == "getmany" and len(set(s["op"][2])) < len(s["op"][2])
+            out.append({"i": i, "kind": "property", "sig": KNOWN_SIGS["D66"] if dup else None,
+                        "what": f"`{s['line']}` -> {impl} {s['detail']}" + (" (get_many with a key asked for twice: one answer per position)" if dup else "")})
             continue
         if want is not None and impl != want:
             sig = classify(steps, i)
@@ -121,7 +128,7 @@ def judge(steps) -> list[dict]:
     return out
 
 
-ALLKEYS = ch.KEYS + ["k:zz"] + ch.LOCKS
+ALLKEYS: list[str] = []       # the keys of the history being judged (set by stats_of)
 
 
 def keys_read(op) -> list[str]:
@@ -147,8 +154,18 @@ def keys_changed(op) -> list[str]:
     return []
 
 
-def stats_of(steps) -> set[str]:
+def stats_of(steps, prefix=None) -> set[str]:
     st = set()
+    ALLKEYS[:] = ch.case_keys([t["op"] for t in steps])
+    pfx = prefix or ch.DEFAULT_PREFIX
+    if prefix is not None:
+        st.add("custom_prefix")
+    if any(pfx in k for k in ALLKEYS):
+        st.add("key_contains_prefix_text")
+    if any(k == pfx for k in ALLKEYS):
+        st.add("key_equals_prefix")
+    if any(a != b and b.startswith(a) for a in ALLKEYS for b in ALLKEYS):
+        st.add("keys_prefixes_of_each_other")
     dropped = set()
     last_writer: dict[str, int] = {}
     outage_reads: dict[int, set] = {}       # disconnected client -> keys it read since the drop / the last refused attempt
@@ -188,6 +205,13 @@ def stats_of(steps) -> set[str]:
             if c not in dropped and c in watch and set(keys_read(op)) & watch[c] and op[0] != "getmatch":
                 st.add("read_after_reconnect_of_key_gone_stale_in_outage")
                 watch[c] -= set(keys_read(op))
+        if op[0] == "getmany" and len(op) > 3:
+            st.add("get_many_with_callers_default")
+            dt = "i:0" if op[3] == "i0" else None
+            if dt and dt in (s["server"] or "")[3:].split(","):
+                st.add("get_many_default_equals_stored_value")
+        if op[0] == "getmany" and len(set(op[2])) < len(op[2]):
+            st.add("get_many_repeated_key")
         if op[0] in ("getmatch", "scan") and (s["server"] or "")[3:]:
             st.add("pattern_read_nonempty")
         if op[0] == "getexpire" and s["impl"].startswith("n=") and int(s["impl"][2:]) > 0:
@@ -228,14 +252,15 @@ class Ctx:
         self.reported: set = set()
         self.found = 0
         self.pending_corr = None
+        self.prefix = None            # client_side_prefix of the case being run (None = the default)
 
     def run(self, n, ops):
-        steps = ch.run_case(self.drv, n, ops)
+        steps = ch.run_case(self.drv, n, ops, self.prefix)
         return steps, judge(steps)
 
     def account(self, n, ops, steps):
         self.evaluations += 1
-        st = stats_of(steps)
+        st = stats_of(steps, self.prefix)
         for k in st:
             self.interesting[k] = self.interesting.get(k, 0) + 1
         for s in steps:
@@ -249,7 +274,7 @@ class Ctx:
         props = [p for p in probs if p["kind"] == "property"]
         if not props:
             if self.pending_corr is None:
-                self.pending_corr = (n, ops, probs[0], origin)
+                self.pending_corr = (n, ops, probs[0], origin, self.prefix)
             return
         for p in props:
             key = p["sig"] or "fresh"
@@ -258,7 +283,7 @@ class Ctx:
             known = p["sig"] and any(f.get("status") == "known" and f.get("signature") == p["sig"] for f in self.chk.known)
             if known:
                 self.reported.add(p["sig"])
-                self.chk.violation(p["what"], replay_dict(n, ops, steps, p, origin), signature=p["sig"])
+                self.chk.violation(p["what"], replay_dict(n, ops, steps, p, origin, self.prefix), signature=p["sig"])
                 continue
             target = p["sig"]
 
@@ -276,13 +301,13 @@ class Ctx:
                 raise HarnessError(f"disagreement not reproducible on re-run: {p['what']}")
             if target:
                 self.reported.add(target)
-            self.chk.violation(p2["what"] + f" ({n} clients)", replay_dict(n, small, steps2, p2, origin), signature=target)
+            self.chk.violation(p2["what"] + f" ({n} clients)", replay_dict(n, small, steps2, p2, origin, self.prefix), signature=target)
             self.found += 1
             if key == "fresh":
                 break
 
     def report_correspondence(self):
-        n, ops, p, origin = self.pending_corr
+        n, ops, p, origin, self.prefix = self.pending_corr
 
         def fails(sub):
             try:
@@ -298,13 +323,13 @@ class Ctx:
             raise HarnessError(f"disagreement not reproducible on re-run: {p['what']}")
         self.chk.violation(
             "correspondence broken (client_side.py vs Model/ClientSide.lean; no read contradicting the server was found in this run): " + p2["what"],
-            dict(replay_dict(n, small, steps2, p2, origin), broken="correspondence Model/ClientSide.lean <-> cashews/backends/redis/client_side.py"),
+            dict(replay_dict(n, small, steps2, p2, origin, self.prefix), broken="correspondence Model/ClientSide.lean <-> cashews/backends/redis/client_side.py"),
             signature=None, no_input=True)
         self.found += 1
 
 
-def replay_dict(n, ops, steps, p, origin):
-    return {"clients": n, "ops": ops, "origin": origin, "first_problem_step": p["i"], "kind": p["kind"],
+def replay_dict(n, ops, steps, p, origin, prefix=None):
+    return {"clients": n, "prefix": prefix, "ops": ops, "origin": origin, "first_problem_step": p["i"], "kind": p["kind"],
             "trace": [dict({"line": s["line"], "impl": s["impl"], "server": s["server"], "model": s["model"], "detail": s["detail"]},
                            **({"model_local_copy_of_clients_in_outage": s["model_local"]} if "model_local" in s else {})) for s in steps],
             "replay_cmd": "./check C20 --replay <this file>"}
@@ -313,7 +338,7 @@ def replay_dict(n, ops, steps, p, origin):
 def corpus_cases():
     for f in sorted((ROOT / "corpus" / PROP).glob("*.json")):
         c = json.loads(f.read_text())
-        yield f.name, c["clients"], c["ops"]
+        yield f.name, c["clients"], c["ops"], c.get("prefix")
 
 
 def run(chk: Check) -> int:
@@ -321,8 +346,9 @@ def run(chk: Check) -> int:
     ctx = Ctx(chk)
     try:
         ncorpus = 0
-        for name, n, ops in corpus_cases():
+        for name, n, ops, pfx in corpus_cases():
             ncorpus += 1
+            ctx.prefix = pfx
             steps, probs = ctx.run(n, ops)
             ctx.account(n, ops, steps)
             if probs:
@@ -342,6 +368,10 @@ def run(chk: Check) -> int:
                 necho += 1
             else:
                 ops = ch.gen_history(chk.rng, n, 30 if i % 4 else 10, with_drops=(i % 5 != 0))
+            # the configured prefix and the key alphabet: default / short custom prefixes x plain keys / keys that contain the prefix
+            # text, equal it, end in it / keys that are prefixes of each other, a fragment of the prefix, the doubled prefix
+            ctx.prefix = ch.PREFIXES[i % len(ch.PREFIXES)]
+            ops = ch.rename_ops(ops, ch.keymaps(ctx.prefix)[(i // 2) % 3])
             steps, probs = ctx.run(n, ops)
             ctx.account(n, ops, steps)
             if probs:
@@ -364,6 +394,10 @@ def run(chk: Check) -> int:
                     "clients (overwrite, create, delete, incr, expire 0, pipeline, flush, pattern delete), more reads, then the "
                     "accepted attempt, reads, another change, reads; a case is non-trivial iff it reached an interesting state "
                     "(interesting_states_cases); distinct = distinct (clients, ops)",
+            "prefix_and_key_alphabet_rule": "history i runs with client_side_prefix = [default, 'c:', default, 'k:', 'v1:'][i % 5] and its keys renamed by "
+                                            "alphabet (i // 2) % 3: 0 plain (k:a k:b j:a k:zz L:a - under the prefix 'k:' these already contain the prefix "
+                                            "text); 1 the prefix text again inside a key, a key equal to the prefix, a key ending in the prefix; 2 keys that are "
+                                            "prefixes of each other ('k:', 'k:<prefix>'), a fragment of the prefix, the doubled prefix",
             "outage_histories": noutage,
             "echo_motif_histories": necho,
             "echo_motif_rule": "every eighth history consists of 4 motifs `client a gets into a state about a key (knows it absent / has it cached / "
@@ -391,6 +425,7 @@ def replay(chk: Check, path: str) -> int:
         return 0
     ctx = Ctx(chk)
     try:
+        ctx.prefix = c.get("prefix")
         steps, probs = ctx.run(c["clients"], c["ops"])
         for s in steps:
             print(f"{s['line'][:50]:50s} impl={s['impl'][:40]:40s} server={str(s['server'])[:40]:40s} model={s['model'][:40]}"
